@@ -73,7 +73,7 @@ class Sim(object):
         self.in_sched = False
         self.dirty = True
         self.finished = threading.Event()
-        self.history = []                 # (seq, tid, kind, detail)
+        self.history = []                 # (seq, tid, kind, detail, vtime)
         self.digest = 0
         self.trace = [] if trace else None
         self.stats = {}
@@ -92,7 +92,7 @@ class Sim(object):
         self.seq += 1
         cur = self.current
         tid = cur.tid if cur is not None and not self.in_sched else -1
-        self.history.append((self.seq, tid, kind, detail))
+        self.history.append((self.seq, tid, kind, detail, self.now))
         self._mix(hash_small((tid, kind, repr(detail), self.steps)))
         if self.trace is not None:
             self.trace.append((self.seq, self.now, tid, kind, detail))
@@ -121,6 +121,8 @@ class Sim(object):
         heapq.heappush(self.events, (max(time_us, self.now), self._evn, fn,
                                      label))
 
+    EARLY_HORIZON_US = 60000
+
     def _next_time(self, soft=True):
         t = self.events[0][0] if self.events else None
         for th in self.threads:
@@ -128,6 +130,11 @@ class Sim(object):
                     (soft or not th.soft):
                 if t is None or th.deadline < t:
                     t = th.deadline
+        if not soft and t is not None and \
+                t > self.now + self.EARLY_HORIZON_US:
+            # a runnable thread is only ever overtaken by events that are
+            # close in time; far-future timers fire when the system is idle
+            return None
         return t
 
     def _fire_next(self, soft=True):
@@ -136,6 +143,8 @@ class Sim(object):
         t = self._next_time(soft)
         if t is None:
             return False
+        if not soft:
+            self.stat('event-first')
         if t > self.now:
             self.now = t
             if self.now > self.max_vtime_us:
@@ -275,7 +284,7 @@ class Sim(object):
                     others = [t]
                 else:
                     others.append(t)
-        has_ev = bool(self.events) or self._has_deadline()
+        has_ev = self._next_time(False) is not None
         if others is None and not has_ev:
             return
         n_oth = len(others) if others else 0
@@ -290,7 +299,6 @@ class Sim(object):
         if has_ev:
             c = self.tape.choose(2, 'event')
             if c:
-                self.stat('event-first')
                 self._fire_next(soft=False)
                 self._wake_blocked()
 
